@@ -7,6 +7,8 @@
 -/
 import Valida.Spec.Ser
 import ValidaProofs.Lemmas.Basic
+import ValidaProofs.Lemmas.C11Leaf
+import ValidaProofs.Lemmas.C11Keys
 namespace ValidaProofs
 open Valida ValidaGen
 
@@ -19,7 +21,7 @@ theorem C11_single_param_stored_by_keyword :
       match sigOf c.target with
       | some sig => !(sig.params.length == 1 && !sig.varPos && !sig.varKw) || (c.fwdPos.isEmpty && c.fwdKw.length == 1)
       | none => false) = true := by
-  sorry
+  decide +kernel
 
 /-- the serialiser's branch (from the callable's signature) and the parser's branch (from the
     constructor's signature) are the same kind for every constructor: same number of named
@@ -29,13 +31,13 @@ theorem C11_signatures_agree :
       match sigOf c.target with
       | some sig => sig.params.length == c.params.length && sig.varPos == c.varPos.isSome && sig.varKw == c.varKw.isSome
       | none => false) = true := by
-  sorry
+  decide +kernel
 
 /-- type names written by the serialiser are read back as the same type -/
 theorem C11_type_names_invert :
     invDtypeLookup.all (fun tn => lookupStr tn.2 dtypeLookupStr == some tn.1) = true ∧
     (invDtypeLookup.map (·.1)).Nodup := by
-  sorry
+  decide +kernel
 
 /-- the key written for a condition (`js_like_label + "." + callable name`) names the same class and
     callable when read back: for every class and every (non-alias) constructor of it -/
@@ -55,21 +57,24 @@ def keyRoundTrips (info : CondClassInfo) (c : Ctor) : Bool :=
 theorem C11_keys_round_trip :
     (condClasses.filter (fun i => i.name != "NullCondition")).all (fun info =>
       ((if info.general then generalCtors else []) ++ (if info.map then mapCtors else [])).all (keyRoundTrips info)) = true := by
-  sorry
+  -- callable names contain no dot, so the key splits into the label's tokens and the name
+  -- (`C11K.keyRoundTrips_of_no_dot`); the labels and the names are then checked separately on the tables
+  have h : keyRoundTrips = C11K.keyRoundTrips := rfl
+  rw [h]; exact C11K.keys_round_trip
 
 /-- no two constructors of a class have names that differ only in letter case (the parser compares
     lower-cased names) -/
 theorem C11_ctor_names_distinct_lowercase :
     ((generalCtors ++ mapCtors).map (fun c => c.name.toList.map Char.toLower)).Nodup ∧
     (generalAliases.map (·.1)).all (fun a => !(generalCtors ++ mapCtors).any (fun c => c.name == a)) = true := by
-  sorry
+  decide +kernel
 
 /-! ### round trips -/
 
 /-- null ↔ `{}` -/
 theorem C11_null (fuel : Nat) :
     condToJson (Cond.null : Cond Arg) = .ok (.dict []) ∧ parseCond (fuel + 1) (.dict []) = .ok Cond.null := by
-  sorry
+  exact ⟨rfl, rfl⟩
 
 /-- a combination is written as `{op: [left, right]}` and read back as the combination of what the two
     operands are read back as (any depth, by induction on the tree) -/
@@ -78,7 +83,17 @@ theorem C11_bin (fuel : Nat) (op : BinOp) (a b : Cond Arg) (ja jb : PyVal) (a' b
     (ha' : parseCond fuel ja = .ok a') (hb' : parseCond fuel jb = .ok b') (hna : a'.isNull = false) :
     condToJson (.bin op a b) = .ok (.dict [(.str op.symbol, .list [ja, jb])]) ∧
     parseCond (fuel + 1) (.dict [(.str op.symbol, .list [ja, jb])]) = Cond.mkBin op a' b' := by
-  sorry
+  constructor
+  · simp [condToJson, ha, hb, bind, Except.bind, pure, Except.pure]
+  · -- one unfolding of the parser at the operator key (as in `C09_fold`), then the two-element fold
+    have key : ∀ (s : String), parseCond (fuel + 1) (.dict [(.str s, .list [ja, jb])]) =
+        [ja, jb].foldlM (fun acc s => do let c ← parseCond fuel s; Cond.mkBin op acc c) Cond.null →
+        parseCond (fuel + 1) (.dict [(.str s, .list [ja, jb])]) = Cond.mkBin op a' b' := by
+      intro s hs
+      rw [hs]
+      simp [List.foldlM, ha', hb', bind, Except.bind, C11L.mkBin_null_left op a' hna]
+      cases Cond.mkBin op a' b' <;> rfl
+    cases op <;> exact key _ rfl
 
 /-- one-parameter callables on value / key / index with a scalar argument -/
 theorem C11_leaf_scalar (fuel : Nat) (cls : CClass) (fn : String) (v : PyVal)
@@ -88,7 +103,12 @@ theorem C11_leaf_scalar (fuel : Nat) (cls : CClass) (fn : String) (v : PyVal)
     (hv : (∃ n, v = .int n) ∨ (∃ s, v = .str s) ∨ (∃ b, v = .bool b) ∨ v = .none ∨ (∃ k, v = .float k)) :
     ∃ js, condToJson (.leaf { cls := cls, fn := fn, args := [], kwargs := [("value", .lit v)] }) = .ok js ∧
       parseCond (fuel + 3) js = .ok (.leaf { cls := cls, fn := fn, args := [], kwargs := [("value", .lit v)] }) := by
-  sorry
+  suffices h : C11L.ScalarRoundTrip cls fn from h fuel v hv
+  simp only [List.mem_cons, List.not_mem_nil, or_false] at hf
+  -- 3 classes × 10 callables: the generic round trip, its closed side conditions evaluated on the tables
+  rcases hc with rfl | rfl | rfl <;>
+  rcases hf with rfl | rfl | rfl | rfl | rfl | rfl | rfl | rfl | rfl | rfl <;>
+  exact C11L.leaf_scalar_of _ _ _ _ _ rfl rfl rfl (fun _ => rfl) (by decide +kernel)
 
 /-- representative rows of the other serialiser branches: no parameter, several parameters,
     var-positional with types, var-keyword, type pre-processor with a type and with a list of types,
@@ -110,11 +130,24 @@ theorem C11_leaf_rows (fuel : Nat) (n m : Int) :
       parseCond (fuel + 3) js = .ok (.leaf { cls := .valueLength, fn := "less_than", args := [], kwargs := [("value", .lit (.int n))] })) ∧
     (∃ js, condToJson (.leaf { cls := .value, fn := "keys_contain_N_of", args := [], kwargs := [("N", .lit (.int n)), ("keys", .lit (.list [.str "a"]))] }) = .ok js ∧
       parseCond (fuel + 3) js = .ok (.leaf { cls := .value, fn := "keys_contain_N_of", args := [], kwargs := [("N", .lit (.int n)), ("keys", .lit (.list [.str "a"]))] })) := by
-  sorry
+  refine ⟨?_, ?_, ?_, ?_, ?_, ?_, ?_, ?_⟩
+  · refine ⟨_, rfl, ?_⟩; rfl
+  · refine ⟨.dict [(.str "value.in_range", .dict [(.str "lower", .int n), (.str "upper", .int m)])], ?_, rfl⟩
+    exact C11L.ser_kw .value "in_range" _ _ _ _ (by decide) rfl rfl (by decide) (by decide +kernel)
+  · refine ⟨_, rfl, ?_⟩; rfl
+  · refine ⟨.dict [(.str "value.items_contain", .dict [(.str "a", .int n), (.str "b", .str "x")])], ?_, rfl⟩
+    exact C11L.ser_kw .value "items_contain" _ _ _ _ (by decide) rfl rfl (by decide) (by decide +kernel)
+  · refine ⟨_, rfl, ?_⟩; rfl
+  · refine ⟨_, rfl, ?_⟩; rfl
+  · refine ⟨.dict [(.str "value.length.less_than", .int n)], ?_, rfl⟩
+    exact C11L.ser_single .valueLength "less_than" _ _ _ _ _ (by decide) rfl rfl rfl rfl rfl (by decide +kernel)
+  · refine ⟨.dict [(.str "value.keys_contain_N_of", .dict [(.str "N", .int n), (.str "keys", .list [.str "a"])])],
+      ?_, rfl⟩
+    exact C11L.ser_kw .value "keys_contain_N_of" _ _ _ _ (by decide) rfl rfl (by decide) (by decide +kernel)
 
 /-- a positionally stored single argument cannot be serialised (what the D6 defect looked like) -/
 theorem C11_positional_storage_refused (v : Arg) :
     condToJson (.leaf { cls := .value, fn := "factor_of", args := [v], kwargs := [] }) = .error .stopIteration := by
-  sorry
+  rfl
 
 end ValidaProofs
